@@ -14,8 +14,13 @@
 (c) options: cells user value x default through `generate(..., user_options)` and `${{o}}` against the
     model-independent reference `${{p[0]}}` with `p=[value]`, and `merge_options` against the model
     instantiated with the *pinned* test kinds (`c14.merge`);
-(d) known inputs: D12 (truthiness), D41 (include_file cycle), D42 (macro cycle through a nested
-    template), D43 (snowfakery_version declared in an included file is lost).
+(d) known inputs: D12 (option truthiness — repaired by d8c74a2, kept as a regression case: a failing
+    cell with a falsy value is reported as a plain VIOLATION with the recorded signature), D45
+    (include_file cycle), D46 (macro cycle through a nested template), D47 (snowfakery_version declared
+    in an included file is lost);
+(e) stateful definitions: macros whose fields keep per-definition run-time state (Counters.NumberCounter,
+    Counters.DateCounter, Dataset.iterate over a small CSV) included by >= 2 templates — directly, through
+    a wrapper macro, twice in one chain — must count per template exactly as the inlined recipe does.
 """
 import copy
 import io
@@ -31,8 +36,8 @@ SPEC = {
     "lean": ["SnowModel.Props.C14", "SnowModel.Props.C14Bridge"],
     "pins": ["Compose"],
     "technique": "Lean 4 proofs over a parse-layer model (Python-dict de-duplication, recursive macro expansion with the cycle check, depth-first include flattening, option decision table parameterised by the pinned tests) + pins of merge_options' two tests, the de-dup expression, the step order of parse_top_level_elements / parse_object_template / include_macro + real-run metamorphic refactoring (factored recipe vs spec-inlined recipe) and model/parse_recipe correspondence",
-    "level_text": "Machine-checked: de-dup = first position / last definition (dedupe_spec) and intermediate de-dups are invisible; a template with `include:` equals the template with the macros' raw fields / friends written first (macro_inline_equiv), own fields override all macros and later macros earlier ones; the inclusion chain terminates by the cycle check (macro_expansion_terminates) — refuted for cycles through nested templates; include_file = depth-first prepend independent of the position of the include lines, the includer's macro wins (include_prepend, include_position_independent, includer_macro_wins), termination under acyclic inclusion — refuted for mutual inclusion; option decision table for the repaired tests (option_decision, merge_supplied), refuted for the pinned truthiness tests (D12). On the real code every generated factoring must give the same parse result and the same rows as its inlining, and every option cell must evaluate to the supplied value.",
-    "level_note": "Trusted: Lean kernel, py2lean, harness (YAML emitter, canonicalisation of ParseResult, the 40-line spec inliner). Field definitions other than nested templates and the template attributes are opaque payloads in the model; parse_element's key/type checks, plugins and line numbers are outside it (C20). D12, D41, D42, D43 are listed findings.",
+    "level_text": "Machine-checked: de-dup = first position / last definition (dedupe_spec) and intermediate de-dups are invisible; a template with `include:` equals the template with the macros' raw fields / friends written first (macro_inline_equiv), own fields override all macros and later macros earlier ones; the inclusion chain terminates by the cycle check (macro_expansion_terminates) — refuted for cycles through nested templates; include_file = depth-first prepend independent of the position of the include lines, the includer's macro wins (include_prepend, include_position_independent, includer_macro_wins), termination under acyclic inclusion — refuted for mutual inclusion; option decision table for the repaired tests (option_decision, merge_supplied), and for the pinned code (option_decision_pinned, merge_supplied_pinned; the old truthiness tests are characterised by truthyGet_decision_exact). On the real code every generated factoring must give the same parse result and the same rows as its inlining, and every option cell must evaluate to the supplied value.",
+    "level_note": "Trusted: Lean kernel, py2lean, harness (YAML emitter, canonicalisation of ParseResult, the 40-line spec inliner). Field definitions other than nested templates and the template attributes are opaque payloads in the model; parse_element's key/type checks, plugins and line numbers are outside it (C20). D45, D46, D47 are listed findings; D12 is repaired (d8c74a2) and kept as a regression input. The identity of parsed definition objects (per-site run-time state) is not part of the parse model: it is covered by the row comparison on recipes with stateful fields in shared macros.",
     "assumptions": [
         "transparency is checked at the boundary parse_recipe -> interpreter: equal ParseResult (statements, option declarations, version) plus equal captured rows of the real runs",
         "include files live in one flat directory (names, not paths)",
@@ -57,6 +62,13 @@ def fd_yaml(fd, ind):
         return "\n" + pad + "reference: " + fd[1] + "\n"
     if k == "nested":
         return "\n" + stmt_yaml(fd[1], ind)
+    if k == "raw":
+        return " " + json.dumps(fd[1]) + "\n"
+    if k == "struct":
+        out = "\n" + pad + fd[1] + ":\n"
+        for a, v in fd[2]:
+            out += f"{pad}  {a}: {json.dumps(v)}\n"
+        return out
     raise ValueError(fd)
 
 
@@ -95,6 +107,8 @@ def item_yaml(it):
         return f"- include_file: {it['name']}\n"
     if k == "version":
         return f"- snowfakery_version: {it['v']}\n"
+    if k == "plugin":
+        return f"- plugin: {it['name']}\n"
     if k == "option":
         out = f"- option: {it['name']}\n"
         if it["has_default"]:
@@ -126,6 +140,10 @@ def payload(fd):
         return json.dumps(recipes.tmpl_src(fd[1]))
     if k == "ref":
         return json.dumps({"reference": fd[1]})
+    if k == "raw":
+        return json.dumps(fd[1])
+    if k == "struct":
+        return json.dumps({"structured": fd[1], "args": [], "kwargs": {a: v for a, v in fd[2]}}, sort_keys=True)
     raise ValueError(fd)
 
 
@@ -177,7 +195,8 @@ def m_item(it):
 
 def model_request(files, main=MAIN):
     order = [main] + [n for n in files if n != main]
-    return {"m": "c14.parse", "files": [[n, [m_item(it) for it in files[n]]] for n in order], "main": main, "fuel": FUEL}
+    return {"m": "c14.parse", "files": [[n, [m_item(it) for it in files[n] if it["k"] != "plugin"]] for n in order],
+            "main": main, "fuel": FUEL}
 
 
 def real_payload(d):
@@ -188,7 +207,11 @@ def real_payload(d):
     if isinstance(d, StructuredValue):
         if d.function_name == "reference" and len(d.args) == 1 and isinstance(d.args[0], SimpleValue) and not d.kwargs:
             return json.dumps({"reference": d.args[0].definition})
-        return json.dumps({"structured": d.function_name})
+        def plain(x):
+            return x.definition if isinstance(x, SimpleValue) else "<" + type(x).__name__ + ">"
+
+        return json.dumps({"structured": d.function_name, "args": [plain(a) for a in d.args],
+                           "kwargs": {k: plain(v) for k, v in d.kwargs.items()}}, sort_keys=True)
     if isinstance(d, ObjectTemplate):
         return None
     return json.dumps({"unknown": type(d).__name__})
@@ -243,9 +266,11 @@ def real_parse(files, main=MAIN):
         shutil.rmtree(d, ignore_errors=True)
 
 
-def real_run(files, reps, options=None, main=MAIN):
+def real_run(files, reps, options=None, main=MAIN, extra=None):
     t = texts(files)
-    return common.run_recipe(t[main], reps=reps, options=options, files={n: x for n, x in t.items() if n != main} or {"_unused.yml": "[]\n"})
+    fs = {n: x for n, x in t.items() if n != main}
+    fs.update(extra or {})
+    return common.run_recipe(t[main], reps=reps, options=options, files=fs or {"_unused.yml": "[]\n"})
 
 
 # ----------------------------------------------------------------------------- the spec inliner
@@ -329,7 +354,7 @@ def spec_inline(files, main=MAIN):
         if it["k"] == "macro":
             macros[it["name"]] = it  # later definition wins
     out = [it for it in files[main] if it["k"] == "version"]
-    out += [it for it in items if it["k"] == "option"]
+    out += [it for it in items if it["k"] in ("option", "plugin")]
     out += [{"k": "stmt", "s": spec_stmt(macros, it["s"])} for it in items if it["k"] == "stmt"]
     return {main: out}
 
@@ -418,6 +443,88 @@ class Factor:
                 self.features.add("macro-friends")
 
 
+PLUGIN_COUNTERS = "snowfakery.standard_plugins.Counters"
+PLUGIN_DATASET = "snowfakery.standard_plugins.datasets.Dataset"
+CSV_NAME = "c14data.csv"
+CSV_TEXT = "a,b\n1,x\n2,y\n3,z\n"
+
+
+def walk_templates(stmts, depth=0):
+    for st in stmts:
+        if "var" in st:
+            if st["value"][0] == "nested":
+                yield from walk_templates([st["value"][1]], depth + 1)
+            continue
+        yield st, depth
+        for n, fd in st.get("fields") or []:
+            if fd[0] == "nested":
+                yield from walk_templates([fd[1]], depth + 1)
+        yield from walk_templates(st.get("friends") or [], depth + 1)
+
+
+def add_stateful(fx, stmts):
+    """A macro whose fields keep per-definition state at run time (counters, a dataset iterator), included
+    by >= 2 templates — directly, through a wrapper macro, or twice in one chain.  Inlining gives every
+    template its own copy of the definitions, hence its own counter: the factored recipe must too."""
+    r = fx.r
+    while len([1 for t, d in walk_templates(stmts) if d == 0]) < 2:
+        stmts.append({"object": r.choice(["S1", "S2"]), "count": ["lit", r.randint(1, 3)], "fields": []})
+    tmpls = list(walk_templates(stmts))
+    tops = [t for t, d in tmpls if d == 0]
+    deep = [t for t, d in tmpls if d > 0]
+    chosen = r.sample(tops, 2)
+    rest = [t for t in tops if all(t is not c for c in chosen)] + deep
+    if rest and r.random() < 0.5:
+        chosen.append(r.choice(rest))
+        if any(chosen[-1] is t for t in deep):
+            fx.features.add("stateful-in-nested-template")
+    kinds = r.sample(["num", "date", "ds", "num2"], r.randint(1, 3))
+    fields, plugins, extra = [], set(), {}
+    if "num" in kinds:
+        fields.append(["cnt", ["struct", "Counters.NumberCounter", [["start", r.randint(1, 9)], ["step", r.choice([1, 2, 5])]]]])
+        plugins.add(PLUGIN_COUNTERS)
+    if "date" in kinds:
+        fields.append(["dcnt", ["struct", "Counters.DateCounter", [["start_date", "2024-01-30"], ["step", r.choice(["+1d", "+1M", "+3d"])]]]])
+        plugins.add(PLUGIN_COUNTERS)
+    if "ds" in kinds:
+        fields.append(["__ds", ["struct", "Dataset.iterate", [["dataset", CSV_NAME]]]])
+        fields.append(["dsv", ["raw", "${{__ds.a}}${{__ds.b}}"]])
+        plugins.add(PLUGIN_DATASET)
+        extra[CSV_NAME] = CSV_TEXT
+    if "num2" in kinds:
+        # a second counter that a formula of the same row reads (order of evaluation inside the row)
+        fields.append(["cnt2", ["struct", "Counters.NumberCounter", [["start", 10], ["step", 10]]]])
+        fields.append(["cnt2x", ["raw", "${{cnt2 + 1}}"]])
+        plugins.add(PLUGIN_COUNTERS)
+    for k in kinds:
+        fx.features.add("stateful:" + k)
+    friends = []
+    if r.random() < 0.3:
+        friends.append({"object": "SF", "fields": [["n", ["struct", "Counters.NumberCounter", [["start", 100], ["step", 1]]]]]})
+        plugins.add(PLUGIN_COUNTERS)
+        fx.features.add("stateful-friend")
+    ms = fx.fresh()
+    fx.macros.append({"k": "macro", "name": ms, "fields": fields, "friends": friends})
+    mw = fx.fresh()
+    wrapper = {"k": "macro", "name": mw, "include": ms if r.random() < 0.7 else f"{ms}, {ms}", "fields": [], "friends": []}
+    if "," in wrapper["include"]:
+        fx.features.add("stateful-macro-twice-in-wrapper")
+    fx.macros.append(wrapper)
+    for t in chosen:
+        via = r.choice(["direct", "direct", "nested", "nested", "both"])
+        names = {"direct": [ms], "nested": [mw], "both": r.choice([[ms, mw], [mw, ms]])}[via]
+        cur = spec_names(t.get("include"))
+        pos = r.randint(0, len(cur))
+        t["include"] = ", ".join(cur[:pos] + names + cur[pos:])
+        fx.features.add("stateful-via-" + via)
+        if r.random() < 0.12 and fields:
+            # the template's own definition overrides the macro's: that counter never runs here
+            t.setdefault("fields", []).append([fields[0][0], ["lit", "OWN"]])
+            fx.features.add("stateful-overridden-by-own")
+    fx.features.add("stateful")
+    return [{"k": "plugin", "name": p} for p in sorted(plugins)], extra
+
+
 def insert_at(rng, items, new):
     """Insert `new` items at random positions keeping their relative order."""
     items = list(items)
@@ -434,6 +541,9 @@ def factor_recipe(rng, rc):
     if rng.random() < 0.85:
         for st in stmts:
             fx.template(st)
+    plugin_items, extra = ([], {})
+    if rng.random() < 0.4:
+        plugin_items, extra = add_stateful(fx, stmts)
     n = len(stmts)
     layout = rng.choice(["single", "one", "one", "nested", "two", "two"])
     cuts = sorted(rng.randint(0, n) for _ in range(2))
@@ -471,6 +581,12 @@ def factor_recipe(rng, rc):
         files[tgt] = insert_at(rng, files[tgt], [{"k": "option", "name": oname, "has_default": True, "default": dflt}])
         if tgt != MAIN:
             fx.features.add("option-in-include")
+    # plugin declarations: any file (`context.plugins.extend` while the files are read)
+    for pi in plugin_items:
+        tgt = rng.choice(names)
+        files[tgt] = insert_at(rng, files[tgt], [pi])
+        if tgt != MAIN:
+            fx.features.add("plugin-in-include")
     # macros: any file, any position (expansion happens after all files are read)
     dfs = [x for x in _dfs(incl, MAIN)]
     for m in fx.macros:
@@ -491,7 +607,7 @@ def factor_recipe(rng, rc):
                 i = next(i for i, it in enumerate(files[tgt]) if it is m)
                 files[tgt].insert(rng.randint(0, i), junk)
                 fx.features.add("same-macro-name-earlier-in-file")
-    return files, fx.features
+    return files, fx.features, extra
 
 
 def _dfs(incl, name):
@@ -548,6 +664,20 @@ def d43_files(v=3):
             "a.yml": [{"k": "version", "v": v}]}
 
 
+def stateful_files():
+    """Fixed regression input: one macro with a counter, included by two templates (directly and through a
+    wrapper macro) and twice in one chain; every template must count on its own."""
+    cnt = ["struct", "Counters.NumberCounter", [["start", 1], ["step", 1]]]
+    return {MAIN: [
+        {"k": "plugin", "name": PLUGIN_COUNTERS},
+        {"k": "macro", "name": "ms", "fields": [["cnt", cnt]], "friends": [{"object": "SF", "fields": [["n", cnt]]}]},
+        {"k": "macro", "name": "mw", "include": "ms", "fields": [["w", ["lit", 1]]]},
+        {"k": "stmt", "s": {"object": "A", "count": ["lit", 2], "include": "ms", "fields": []}},
+        {"k": "stmt", "s": {"object": "B", "count": ["lit", 2], "include": "mw", "fields": []}},
+        {"k": "stmt", "s": {"object": "C", "count": ["lit", 2], "include": "ms, mw", "fields": []}},
+    ]}
+
+
 SIG_D12 = "C14:option-truthiness"
 SIG_D41 = "C14:include-file-cycle:RecursionError"
 SIG_D42 = "C14:macro-cycle-via-nested-template:RecursionError"
@@ -567,9 +697,11 @@ def canon_rows(rows):
     return [[t, [[k, v] for k, v in fs]] for t, fs in rows]
 
 
-def check_refactoring(rep, files, reps, feats=(), run_rows=True):
+def check_refactoring(rep, files, reps, feats=(), run_rows=True, extra=None):
     """Oracle (a): factored == spec-inlined, on the real code. Returns (case, real parse of factored)."""
     case = {"kind": "refactor", "files": files, "reps": reps, "texts": texts(files)}
+    if extra:
+        case["extra"] = extra
     try:
         inl = spec_inline(files)
     except InlineError as e:
@@ -592,7 +724,7 @@ def check_refactoring(rep, files, reps, feats=(), run_rows=True):
                 rep.violation("C14:refactor-parse-differs:" + key, what, case, pb[key], pa[key])
                 return case, pa, inl
     if run_rows:
-        ra, rb = real_run(files, reps), real_run(inl, reps)
+        ra, rb = real_run(files, reps, extra=extra), real_run(inl, reps, extra=extra)
         oa, ob = ra.outcome.split(":")[0], rb.outcome.split(":")[0]
         if oa != ob:
             rep.violation("C14:refactor-run-outcome", f"the factored recipe ends {ra.outcome} ({(ra.error or '')[:120]}), its inlining {rb.outcome} ({(rb.error or '')[:120]})", case, rb.outcome, ra.outcome)
@@ -760,7 +892,7 @@ def run_known(rep, findings):
         if isinstance(f.get("input"), dict) and f["input"].get("kind"):
             replay(f["input"], rep)
             rep.count("known-finding-input:" + f["id"])
-    # D41: include_file cycle
+    # D45 (was D41): include_file cycle
     for n in (2, 1, 3):
         files = d41_files(n)
         case = {"kind": "parse-only", "files": files, "texts": texts(files), "family": "include-cycle"}
@@ -771,7 +903,7 @@ def run_known(rep, findings):
             rep.violation(SIG_D41 if r["status"] == "internal:RecursionError" else "C14:include-file-cycle:" + r["status"],
                           f"{n} file(s) including each other: {r['status']} escapes (file inclusion has no cycle check)", case, "recipe_error", r["status"])
         _model_one(rep, "c14.parse:include-cycle", case, files, r)
-    # D42: macro reaches itself through a nested template
+    # D46 (was D42): macro reaches itself through a nested template
     for via in ("friend", "field"):
         files = d42_files(via)
         case = {"kind": "parse-only", "files": files, "texts": texts(files), "family": "macro-cycle-via-" + via}
@@ -782,7 +914,11 @@ def run_known(rep, findings):
             rep.violation(SIG_D42 if r["status"] == "internal:RecursionError" else "C14:macro-cycle-via-nested-template:" + r["status"],
                           f"macro m reaches itself through a {via} template: {r['status']} escapes (the cycle check restarts at every template)", case, "recipe_error", r["status"])
         _model_one(rep, "c14.parse:macro-cycle-nested", case, files, r)
-    # D43: version declared only in the included file
+    # stateful definitions in a shared macro (fixed regression input)
+    case, pa, inl = check_refactoring(rep, stateful_files(), 2)
+    rep.case({"texts": case["texts"], "reps": 2}, nontrivial=True)
+    _model_one(rep, "c14.parse:stateful", case, stateful_files(), pa)
+    # D47 (was D43): version declared only in the included file
     for v in (3,):
         version_case(rep, d43_files(v))
 
@@ -856,7 +992,7 @@ def run(ctx, rep, findings):
         rep.count("compare:" + compare_model(rep, "c14.parse:malformed", case, r, m))
         rep.traces_validated += 1
 
-    # ---- version declarations moved into include files (D43 family)
+    # ---- version declarations moved into include files (D47 family)
     for _ in range(ctx.scale(6, 60)):
         v = rng.choice([2, 3])
         files = d43_files(v)
@@ -865,7 +1001,7 @@ def run(ctx, rep, findings):
         version_case(rep, files)
 
     # ---- refactorings
-    n = ctx.scale(420, 6000)
+    n = ctx.scale(420, 4000)
     batch = []
     for i in range(n):
         reps = rng.choice([1, 1, 2])
@@ -875,9 +1011,9 @@ def run(ctx, rep, findings):
             orig = common.run_recipe(recipes.recipe_yaml(rc), reps=reps)
             if orig.outcome == "ok" or rng.random() < 0.12:
                 break
-        files, feats = factor_recipe(rng, rc)
-        case, pa, inl = check_refactoring(rep, files, reps, feats)
-        if "junk-override" not in feats and orig.outcome == "ok":
+        files, feats, extra = factor_recipe(rng, rc)
+        case, pa, inl = check_refactoring(rep, files, reps, feats, extra=extra)
+        if "junk-override" not in feats and "stateful" not in feats and orig.outcome == "ok":
             # no overriding involved: the factored recipe must reproduce the rows of the recipe as generated
             fr = real_run(files, reps)
             if fr.outcome != "ok" or canon_rows(fr.rows) != canon_rows(orig.rows):
@@ -922,7 +1058,7 @@ def flush(rep, batch):
 def replay(case, rep):
     k = case.get("kind")
     if k == "refactor":
-        c, pa, inl = check_refactoring(rep, case["files"], case.get("reps", 1))
+        c, pa, inl = check_refactoring(rep, case["files"], case.get("reps", 1), extra=case.get("extra"))
         _model_one(rep, "c14.parse", c, case["files"], pa)
     elif k == "parse-only":
         files = case["files"]
@@ -953,7 +1089,7 @@ def shrink(case, signature):
     def fails(fs):
         rep = common.Report("C14")
         try:
-            check_refactoring(rep, fs, reps)
+            check_refactoring(rep, fs, reps, extra=case.get("extra"))
         except Exception:  # noqa
             return False
         return any(v["signature"] == signature for v in rep.violations)
@@ -990,6 +1126,8 @@ def shrink(case, signature):
 
                 tgt[key] = common.shrink_list(lst, still2)
     out = {"kind": "refactor", "files": files, "reps": reps, "texts": texts(files)}
+    if case.get("extra"):
+        out["extra"] = case["extra"]
     try:
         out["inlined"] = texts(spec_inline(files))[MAIN]
     except InlineError:
